@@ -63,6 +63,7 @@ type assertStat struct {
 	Checked      int `json:"checked"`
 	Unsat        int `json:"discharged_unsat"`
 	ConcreteTrue int `json:"concrete_true"`
+	UnderSymPC   int `json:"concrete_under_symbolic_path_condition"`
 	Sat          int `json:"sat"`
 	Unknown      int `json:"unknown"`
 }
@@ -115,6 +116,7 @@ type executor struct {
 	deadlocks int
 	sideTab   map[*value]*mutexState
 	clock     int64
+	uuids     int
 }
 
 type config struct {
@@ -383,6 +385,9 @@ func (x *executor) assert(label string, c value) {
 	if b, ok := c.(bool); ok {
 		if b {
 			st.ConcreteTrue++
+			if len(x.pc) > 0 {
+				st.UnderSymPC++
+			}
 			return
 		}
 		st.Sat++
@@ -420,6 +425,14 @@ func (x *executor) assert(label string, c value) {
 		x.inconclusive(fmt.Sprintf("assert %q: solver answered %s", label, r))
 	}
 	x.addPC(t)
+}
+
+func clipLines(s string, n int) string {
+	ls := strings.Split(s, "\n")
+	if len(ls) > n+1 {
+		ls = ls[:n+1]
+	}
+	return strings.Join(ls, "\n")
 }
 
 func clip(s string, n int) string {
@@ -495,7 +508,7 @@ func runPath(i *interpreter, fn *ssa.Function, x *executor) {
 			}
 			return
 		case engineErr:
-			x.inconclusive("engine: " + string(r))
+			x.inconclusive("engine: " + string(r) + clipLines(i.panicStack, 6))
 			if x.cfg.trace {
 				buf := make([]byte, 1<<14)
 				n := runtime.Stack(buf, false)
@@ -526,7 +539,7 @@ func runPath(i *interpreter, fn *ssa.Function, x *executor) {
 						}
 					}
 				}()
-				x.violate("panic", "no-panic", msg+" @ "+lastPos(i), "")
+				x.violate("panic", "no-panic", msg+" @ "+lastPos(i)+i.panicStack, "")
 			}()
 		}
 	}()
